@@ -1,5 +1,6 @@
 //! Dispatch from property ids to engines.
 pub mod codegen;
+pub mod heapbfs;
 
 use crate::framework::*;
 use crate::pipeline::Arch;
@@ -11,6 +12,13 @@ pub fn run_worker(check: &str, ctx: &WorkerCtx, _extra: &[String]) -> Report {
         "C06" => codegen::worker(ctx, Arch::X86, codegen::Mode::Semantics),
         "C07" => codegen::worker(ctx, Arch::A64, codegen::Mode::Semantics),
         "C08" => codegen::worker(ctx, Arch::Rv64, codegen::Mode::Semantics),
+        "C09" => heap_worker(ctx, false),
+        "C10" => heap_worker(ctx, true),
+        "C13" => {
+            let mut r = codegen::worker(ctx, Arch::X86, codegen::Mode::CallConv);
+            r.merge(codegen::worker(ctx, Arch::A64, codegen::Mode::CallConv));
+            r
+        }
         _ => {
             let mut r = Report::default();
             r.machinery(format!("unknown check {check}"));
@@ -34,6 +42,127 @@ fn codegen_meta(property: &'static str, arch: &str) -> CheckMeta {
     }
 }
 
+/// C09 / C10 worker. Shards 0..2 run the explicit-state search for one architecture each; the
+/// others run the program executions (C09: all families under the heap monitor; C10: the loop
+/// families at n, 4n, 16n).
+fn heap_worker(ctx: &WorkerCtx, footprint: bool) -> Report {
+    use crate::arch::arch_info;
+    let mut rep = Report::default();
+    let archs = Arch::all();
+    let n = ctx.nshards;
+    // (K variables, live-block bound, rich alphabet): each configuration is searched to a fixpoint
+    let configs: Vec<(usize, usize, bool)> = if ctx.tier.thorough() {
+        vec![(2, 3, false), (3, 2, false), (2, 4, false), (2, 3, true), (3, 3, false), (4, 2, false)]
+    } else {
+        vec![(2, 3, false), (3, 2, false)]
+    };
+    let mut tasks: Vec<(Arch, (usize, usize, bool))> = Vec::new();
+    for c in &configs {
+        for a in archs {
+            tasks.push((a, *c));
+        }
+    }
+    let ntasks = tasks.len() as u64;
+    let exec_shard = if n > ntasks { if ctx.shard >= ntasks { Some(ctx.shard - ntasks) } else { None } } else { Some(ctx.shard) };
+    let exec_n = if n > ntasks { n - ntasks } else { n };
+    for (ti, (arch, (k, live, rich))) in tasks.into_iter().enumerate() {
+        if ti as u64 % n != ctx.shard {
+            continue;
+        }
+        let cap = if ctx.tier.thorough() { 12_000_000u64 } else { 1_000_000u64 };
+        let out = heapbfs::search(arch, k, live, rich, cap, ctx, &mut rep);
+        rep.count("states", out.states);
+        rep.count("transitions", out.transitions);
+        rep.count("traces_validated_against_impl", out.transitions);
+        rep.count("bfs_states", out.states);
+        rep.count("cases", out.transitions);
+        rep.distinct.push(hash64(&(arch.name(), k, live, rich, out.states)));
+        rep.notes.push(format!(
+            "BFS {} K={k} live<={live} rich-alphabet={rich}: {} canonical states, {} transitions, depth {}, fixpoint reached: {}",
+            arch.name(), out.states, out.transitions, out.depth, out.fixpoint
+        ));
+        if out.fixpoint {
+            rep.count("bfs_configurations_at_fixpoint", 1);
+        }
+        if let Some(c) = out.cap {
+            rep.capped = Some(match rep.capped.take() { Some(p) => format!("{p}; {c}"), None => c });
+        }
+        rep.outcomes.insert(format!("bfs/{}/K{k}/L{live}/rich{rich}/fixpoint={}", arch.name(), out.fixpoint));
+    }
+    if let Some(es) = exec_shard {
+        let sub = WorkerCtx { tier: ctx.tier, shard: es, nshards: exec_n, seed: ctx.seed, started: ctx.started, budget_s: ctx.budget_s };
+        if !footprint {
+            for arch in archs {
+                rep.merge(codegen::worker(&sub, arch, codegen::Mode::Heap));
+            }
+        } else {
+            // loops at n, 4n, 16n: the footprint must not depend on n
+            let types = crate::generate::axb::std_types();
+            let base: i64 = if ctx.tier.thorough() { 64 } else { 8 };
+            let mut idx = 0u64;
+            for arch in archs {
+                let info = arch_info(arch);
+                for shape in 0..crate::generate::axfam::LOOP_SHAPES {
+                    idx += 1;
+                    if !sub.mine(idx) {
+                        continue;
+                    }
+                    let mut frontiers = Vec::new();
+                    for n in [base, 4 * base, 16 * base] {
+                        let case = crate::generate::axfam::loop_case(&types, shape, n);
+                        let r = codegen::run_case(&case, arch, &info, true);
+                        rep.count("cases", 1);
+                        rep.count("states", r.boundaries);
+                        rep.count("transitions", r.ref_steps);
+                        rep.distinct.push(hash64(&(arch.name(), shape, n)));
+                        match (&r.verdict, r.heap) {
+                            (crate::exec::Verdict::Match, Some(h)) => {
+                                rep.count("traces_validated_against_impl", 1);
+                                frontiers.push((n, h.1, h.0));
+                            }
+                            (crate::exec::Verdict::Violation(m), _) => {
+                                rep.violation(format!("{}/loop{shape}/run", arch.name()), m.clone(), codegen::case_json(&case, arch));
+                            }
+                            (crate::exec::Verdict::Machinery(m), _) => rep.machinery(m.clone()),
+                            _ => {}
+                        }
+                    }
+                    if frontiers.len() == 3 {
+                        rep.sample(serde_json::json!({"arch": arch.name(), "loop_shape": shape, "iterations_frontier_peak": frontiers}));
+                        let f0 = frontiers[0].1;
+                        if frontiers.iter().any(|(_, f, _)| *f != f0) {
+                            rep.violation(
+                                format!("{}/loop{shape}/grows", arch.name()),
+                                format!("heap footprint depends on the number of iterations: (n, frontier blocks, peak live) = {frontiers:?}"),
+                                serde_json::json!({"kind": "loopgrowth", "arch": arch.name(), "shape": shape, "base": base}),
+                            );
+                        }
+                        rep.outcomes.insert(format!("loop{shape}/frontier={f0}"));
+                    }
+                }
+            }
+        }
+    }
+    rep
+}
+
+fn heap_meta(property: &'static str) -> CheckMeta {
+    CheckMeta {
+        property,
+        level: "model_checking",
+        rule: if property == "C09" {
+            "two explorations: (A) every statement boundary of every emulated execution of the linear AxCut families on all three backends is a checked state (heap partition, exact reference counts, memory safety); (B) breadth-first search over histories of heap operations (literal, let of 0/1/2/3/4 fields, dup, drop, move, switch, create, invoke) from the post-prologue state, each transition being the real generated code for one statement run on the emulator, with canonical-state deduplication (block addresses renamed in discovery order, dead data scrubbed to undefined); the invariant, agreement of integers/tags with a reference value model and the footprint bound are evaluated in every state. A state is distinct by its canonical form.".into()
+        } else {
+            "(mechanism) the same breadth-first search as C09(B) with (peak reachable blocks) carried in the state: blocks below the allocation frontier <= peak + 2 in every reachable state, to a fixpoint under a live-data bound, i.e. for histories of any length; (programs) build-and-drop loops of six shapes on all three backends at n, 4n, 16n iterations: the frontier must be identical for the three n.".into()
+        },
+        assumptions: vec![
+            "block geometry (fields per block, offsets, heap/free registers, temporaries) is taken from the backend crates at run time".into(),
+            "the canonical form merges states that differ only in block addresses and dead data; generated code never compares addresses and dead data is scrubbed to undefined so that any dependence is a fault".into(),
+            "reading of 'deferred': blocks beneath a deferred block still hold counted references; blocks on the reusable list hold none".into(),
+        ],
+    }
+}
+
 pub fn run_check(id: &str, tier: Tier) -> i32 {
     let started = Instant::now();
     match id {
@@ -43,6 +172,21 @@ pub fn run_check(id: &str, tier: Tier) -> i32 {
                 "C06" => codegen_meta("C06", "x86-64"),
                 "C07" => codegen_meta("C07", "AArch64"),
                 _ => codegen_meta("C08", "RV64"),
+            };
+            finish(&meta, tier, started, rep, Map::new())
+        }
+        "C09" | "C10" => {
+            let rep = run_sharded(id, tier, &[]);
+            let meta = heap_meta(if id == "C09" { "C09" } else { "C10" });
+            finish(&meta, tier, started, rep, Map::new())
+        }
+        "C13" => {
+            let rep = run_sharded(id, tier, &[]);
+            let meta = CheckMeta {
+                property: "C13",
+                level: "model_checking",
+                rule: "every emulated execution of the linear AxCut families on x86-64 and AArch64 (prints with 0..22 live variables x kind patterns x printed position x newline, 0..5 / 0..7 entry arguments, every other family) runs under the calling-convention model: distinct sentinels in callee-saved registers compared at return, alignment checked at every call (and every SP-based access on AArch64), every caller-saved register, the flags, the link register and the stack below SP become undefined at each print call and an undefined value reaching a branch, address, jump target, print argument or the result is a violation.".into(),
+                assumptions: vec!["System V x86-64 and AAPCS64 register classes as documented; the print runtime is modelled as an arbitrary conforming callee".into()],
             };
             finish(&meta, tier, started, rep, Map::new())
         }
@@ -78,6 +222,21 @@ pub fn replay(id: &str, path: &str) -> i32 {
             }
             None => {
                 eprintln!("case not found");
+                2
+            }
+        },
+        Some("heapbfs") => match heapbfs::replay(case) {
+            Ok(Some(msg)) => {
+                println!("[{id}] replay: {msg}");
+                println!("VIOLATION property={id} replay={path}");
+                1
+            }
+            Ok(None) => {
+                println!("[{id}] replay: history executes without violation");
+                0
+            }
+            Err(e) => {
+                eprintln!("replay failed: {e}");
                 2
             }
         },
